@@ -3,6 +3,7 @@
 use crate::util::*;
 
 pub mod c01_04;
+pub mod c05;
 pub mod c06;
 pub mod c07;
 pub mod c08;
@@ -37,6 +38,7 @@ pub fn all() -> Vec<PropDef> {
     PropDef { id: "C02", spaces: c01_04::spaces_c02, assumptions: c01_04::ASSUMPTIONS, budget: (60.0, 3000.0), post: None },
     PropDef { id: "C03", spaces: c01_04::spaces_c03, assumptions: c01_04::ASSUMPTIONS, budget: (60.0, 3000.0), post: None },
     PropDef { id: "C04", spaces: c01_04::spaces_c04, assumptions: c01_04::ASSUMPTIONS, budget: (60.0, 3000.0), post: None },
+    PropDef { id: "C05", spaces: c05::spaces, assumptions: c05::ASSUMPTIONS, budget: (120.0, 3000.0), post: None },
     PropDef { id: "C06", spaces: c06::spaces, assumptions: c06::ASSUMPTIONS, budget: (120.0, 3000.0), post: Some(c06::post) },
     PropDef { id: "C07", spaces: c07::spaces, assumptions: c07::ASSUMPTIONS, budget: (120.0, 3000.0), post: None },
     PropDef { id: "C08", spaces: c08::spaces, assumptions: c08::ASSUMPTIONS, budget: (60.0, 3000.0), post: None },
